@@ -212,6 +212,15 @@ def edge_texts():
         for use in ["JMP %s", "JR %s", "LD R0, %s", "MOV (%s), R1", "CALL %s", "DEC %s", "LDSP (%s)"]:
             out.append("#! mrasm\n%s:\n%s\n" % (d, use % r))
         out.append("#! mrasm\n.EQU %s 5\nLD R1, %s\n" % (d, r))
+    # long names that agree on their first n characters and differ afterwards (n around every plausible truncation length)
+    stem = "WAIT_UNTIL_THE_TEMPERATURE_SENSOR_IS_READY_AND_THE_FAN_HAS_REACHED_ITS_SPEED_"
+    for n in [7, 8, 15, 16, 20, 24, 30, 31, 32, 33, 39, 40, 41, 47, 48, 63, 64, 65]:
+        d, r = stem[:n] + "a1", stem[:n] + "b2"
+        for use in ["JMP %s", "JZS %s", "LD R0, %s", "MOV (%s), R1", "DEC %s"]:
+            out.append("#! mrasm\n%s:\n%s\n" % (d, use % r))
+            out.append("#! mrasm\n%s:\n%s:\n%s\n%s\n" % (d, r.lower(), use % r.upper(), use % d.lower()))
+        out.append("#! mrasm\n.EQU %s 5\nLD R1, %s\n" % (d, r))
+        out.append("#! mrasm\n.EQU %s 5\n.EQU %s 6\nLD R1, %s\nLD R2, %s\n" % (d, r, r, d))
     # relative jumps over every distance around the signed-byte limits, forward and backward, and across the 256 wrap
     for dist in [0, 1, 2, 100, 124, 125, 126, 127, 128, 129, 130, 200, 250, 253]:
         for j in ["JR", "JZS", "JCC", "JNS"]:
@@ -231,6 +240,30 @@ def edge_texts():
             if n >= 4 and "x" not in c:
                 continue
             out.append("#! mrasm ;%s\nl: ;%s\n NOP ;%s\n;%s\n" % (c, c, c, c))
+    return out
+
+
+def spellings(v):
+    """every spelling of the byte v: decimal, 0x with either letter case, 0b - each with 0..2 leading zeros"""
+    out = []
+    for z in ("", "0", "00"):
+        out += [z + "%d" % v, "0x" + z + "%x" % v, "0x" + z + "%X" % v, "0b" + z + bin(v)[2:]]
+    return sorted(set(out))
+
+
+def numeric_programs():
+    """one small program per (byte value, spelling): the value in every numeric position (directives and operands)"""
+    out = []
+    for v in range(256):
+        for sp in spellings(v):
+            k = min(v, 6)
+            lines = [".BYTE %d" % k]
+            if v <= 200:
+                lines.append(".ORG " + sp)
+            lines += [".DB " + sp + ", " + sp, " LD R0, " + sp, " MOV (" + sp + "), R1", ".DW " + sp, " LDSP " + sp]
+            if v <= 20:
+                lines.append(".BYTE " + sp)
+            out.append("#! mrasm\n" + "\n".join(lines) + "\n")
     return out
 
 
